@@ -2,7 +2,8 @@
 from lib import *  # noqa
 import C06
 
-TECHNIQUE = "transition-relation check of the field cookie->state by value-set abstract interpretation (prior-state set x new state x dominating guards at every store), guard dominance for TCP/accept, gate flow for the server-cookie copy bound, who-may-write census"
+TECHNIQUE = ("transition-relation check of the field cookie->state by value-set abstract interpretation (prior-state set x new state x dominating guards at every store), guard dominance for TCP/accept, gate flow for the server-cookie copy bound, who-may-write census"
+             ", edge-cut gate of every response action behind the cookie check, exact finite-domain evaluation of the timestamp predicate and of the response-cookie length filter, exact guard on the regression-start store, must-precede of connect before the local address is read")
 LEVEL_TEXT = ("static: decides on every path that the transition relation of the per-server cookie state is a subset of the RFC 7873 client "
               "machine (in particular: no transition out of SUPPORTED except under the regression timer), that no cookie is attached on TCP, "
               "that a response without a server cookie is never accepted while SUPPORTED, that the BADCOOKIE resend counter forces TCP at three, "
